@@ -300,7 +300,7 @@ class Stack(MixIn):
         Service the .txPkts deque to send packets through server
         Override in subclass
         """
-        while self.handler.opened and self.txPkts:
+        while self.handler.opened and (self.txbs or self.txPkts):
             if not self._serviceOneTxPkt():
                 break  # blocked try again later
 
@@ -308,7 +308,7 @@ class Stack(MixIn):
         '''
         Service .txPkts deque once (one pkt)
         '''
-        if self.handler.opened and self.txPkts:
+        if self.handler.opened and (self.txbs or self.txPkts):
             self._serviceOneTxPkt()
 
     def transmit(self, pkt):
